@@ -268,6 +268,9 @@ def fam_cycles(rng, pid):
     cfg['ratio'] = rng.choice([0, 0, 50, 100])
     pr = PRIOS if cfg['queues'][0] == 'prio' else None
     ops = []
+    tuned = cfg['conc'] > 1 and rng.random() < 0.5
+    if tuned:
+        ops.append({'op': 'TunePool', 'n': rng.randrange(1, cfg['conc'])})      # the cycles must leave the tuned limit alone
     for _ in range(rng.choice([2, 3, 4])):
         if rng.random() < 0.5:
             ops.append(b.add(0, pr))
@@ -284,7 +287,7 @@ def fam_cycles(rng, pid):
             ops += [{'op': 'Pause'}, {'op': 'Resume'}]
         if rng.random() < 0.3:
             ops.append({'op': 'NumIdle'})
-    ops += [b.add(0, pr), {'op': 'WUF'}, {'op': 'NumIdle'}]
+    ops += [{'op': 'NumConc'}] + [b.add(0, pr) for _ in range(cfg['conc'] + 1 if tuned else 1)] + [{'op': 'WUF'}, {'op': 'NumIdle'}]
     if rng.random() < 0.3:
         ops.append({'op': 'Stop'})
     b.client('ctl', ops)
